@@ -40,6 +40,20 @@ def bounds(tier, seed):
             'module_name_slice': 'index % 8 == seed % 8' if q else 'all'}
 
 
+# typed scalars of extreme magnitude: the converters must answer with a value or a YAML error, quickly
+MAG_UNITS = ['1', '9', '0', '1_', '1:3', ':59', '1:', '0x1', 'f', '0b1', '07', '1.', '.1', '1e', 'e1', '5e3', '2001-01-01 00:00:00.1', 'aGVsbG8=', 'QQ==', '=', '_', '-1', '+1:0', '0.', '00:']
+MAG_FRAMES = ['%s', '%s.', '%s.5', '-%s', '0x%s', '0b%s', '0%s', '1e%s', '1e+%s', '1e-%s', '.%s', '%s:30', '%s:30.5', '2001-01-01 00:00:00.%s', '2001-01-01 00:00:00 +%s', '2001-01-01T1:1:1-%s:00',
+              '!!int %s', '!!float %s', '!!float %s:1.', '!!timestamp 2001-01-01 0:0:0.%s', '!!binary %s', '!!bool %s', '!!null %s', '!!int "-%s"', '!!float "+%s.e9"']
+
+
+class _Slow(Exception):
+    pass
+
+
+def _alarm(signum, frame):
+    raise _Slow()
+
+
 CUSTOM = []
 
 
@@ -187,6 +201,7 @@ def plan(tier, seed):
     jobs = [('struct', i) for i in range(len(G.structural_tags()))]
     jobs += [('canary', i, k, 8) for i in range(len(G.PY_PREFIX)) for k in range(8)]
     jobs += [('registered', k, 8) for k in range(8)]
+    jobs += [('magnitude', k) for k in range(len(MAG_UNITS))]
     NS = 64
     for k in range(NS):
         if not q or k % 8 == seed % 8:
@@ -234,6 +249,26 @@ def run_job(job, T):
             check_doc(T, 'registered-tags', {'doc': text, 'tag': 'custom', 'kind': 'probe', 'context': 'root'}, text, 'noncore' if '!' in text else 'core', profile=True, prime=PRIME_FULL)
         T.count('registered_tags_enumerated', len(G.registered_tags(yaml.constructor.BaseConstructor)))
         T.sample('registered-tags', {'doc': doc})
+    elif kind == 'magnitude':
+        import signal
+        u = MAG_UNITS[job[1]]
+        old = signal.signal(signal.SIGALRM, _alarm)
+        doc = None
+        try:
+            for n in (40, 180, 400, 1500, 4400):
+                for fr in MAG_FRAMES:
+                    doc = fr % (u * n)
+                    case = {'doc': doc if len(doc) < 300 else None, 'unit': u, 'n': n, 'frame': fr, 'tag': 'core', 'kind': 'magnitude', 'context': 'root'}
+                    signal.setitimer(signal.ITIMER_REAL, 10.0)
+                    try:
+                        check_doc(T, 'magnitude', case, doc, 'core', profile=False)
+                    except _Slow:
+                        T.violation('magnitude', 'hang', case, detail='a %d-character scalar (%r x %d in %r) took more than 10 s to load' % (len(doc), u, n, fr))
+                    finally:
+                        signal.setitimer(signal.ITIMER_REAL, 0)
+        finally:
+            signal.signal(signal.SIGALRM, old)
+        T.sample('magnitude', {'doc': doc[:60]})
     elif kind == 'names':
         _, k, ns = job
         T.count('module_names', len(NAMES) if k == 0 or True else 0)
@@ -261,6 +296,9 @@ def finalize(agg, tier, seed):
 
 
 def replay(sub, case, T):
+    if sub == 'magnitude' and case.get('doc') is None:
+        case = dict(case)
+        case['doc'] = case['frame'] % (case['unit'] * case['n'])
     check_doc(T, sub, case, case['doc'], kind_of_tag(case.get('tag', '')) if case.get('tag') in CORE_TAGS | SPECIAL_TAGS else 'noncore', profile=True,
               prime=PRIME_UNSAFE if case.get('primed') == 'unsafe' else PRIME_FULL)
 
